@@ -32,6 +32,9 @@ RULE = ("count matrices over 1..8 states (many-states stream: up to 200) built f
         "a narrow-dtype stream (count matrices held as uint8 / int8 / int16 / uint16 / int32, dense and every sparse container, every entry "
         "legal for the dtype, the heaviest component's total -- often a single row's total -- beyond the dtype's range and chosen so that "
         "the total reduced modulo the dtype's width falls below a lighter component's; thresholds 0..3 or a third of the dtype's maximum); "
+        "a stored-zeros stream (COO / CSR / CSC matrices and arrays carrying explicit zero-valued entries for transitions never "
+        "observed -- placed so that they would join components if a stored entry were taken for a transition -- and BSR "
+        "matrices with explicit block sizes whose dense blocks cover unobserved transitions; mostly the default threshold); "
         "TrimMapping alone on injective (original, mapped) pair lists in arbitrary order; "
         "thorough adds every 0/1 digraph on <= 3 states with two weightings and every 0/1 digraph on 4 states; "
         "non-trivial := >= 2 components w.r.t. the threshold and at least one state removed. "
@@ -343,6 +346,56 @@ def _narrow(rng, dt):
     return C, thr
 
 
+ZERO_CONTS = ["coo_matrix", "csr_matrix", "csc_matrix", "coo_array", "csr_array"]
+
+
+def _stored_zeros(rng, C, thr):
+    """positions (i, j) with count 0 that the sparse container stores all the same (`m[i, j] = 0`, an edited `.data`,
+    a Matrix-Market file listing zeros): preferably cells that would join different components if a stored
+    entry were taken for an observed transition"""
+    n = len(C)
+    free = [(i, j) for i in range(n) for j in range(n) if C[i][j] == 0]
+    if not free:
+        return []
+    lab = {i: k for k, comp in enumerate(_sccs(C, thr)) for i in comp}
+    cross = [(i, j) for i, j in free if lab[i] != lab[j]]
+    u = rng.random()
+    if u < 0.35 and cross:
+        # a two-way connection between two components made of stored zeros only
+        i, j = rng.choice(cross)
+        zs = [(i, j)] + ([(j, i)] if C[j][i] == 0 else [])
+        zs += rng.sample(free, rng.randrange(min(3, len(free)) + 1))
+    elif u < 0.6:
+        zs = list(free)                                   # every unobserved transition is stored
+    elif u < 0.8 and cross:
+        zs = rng.sample(cross, rng.randint(1, len(cross)))
+    else:
+        zs = rng.sample(free, rng.randint(1, len(free)))
+    out = []
+    for z in zs:
+        if z not in out:
+            out.append(z)
+    rng.shuffle(out)
+    return [list(z) for z in out]
+
+
+def _block_cells(C, block):
+    """cells a BSR container with the given block size stores: every cell of a block holding a count"""
+    n, (br, bc) = len(C), block
+    full = {(i // br, j // bc) for i in range(n) for j in range(n) if C[i][j] != 0}
+    return [(i, j) for i in range(n) for j in range(n) if (i // br, j // bc) in full]
+
+
+def _stored_extra(c):
+    """the zero-count cells the case's container stores explicitly"""
+    C = c["C"]
+    if c.get("zeros"):
+        return [tuple(z) for z in c["zeros"]]
+    if c.get("block"):
+        return [(i, j) for i, j in _block_cells(C, c["block"]) if C[i][j] == 0]
+    return []
+
+
 def _mk(C, thr, ren, cont, extras=True, fit=None):
     return {"C": C, "thr": thr, "renumber": ren, "cont": cont, "extras": extras,
             "fit": fit if fit is not None else False}
@@ -406,6 +459,32 @@ def generate(rng, tier):
                 cs = _mk(C, thr, rng.random() < 0.5, cont, True, fit=False)
                 cs["dtype"] = dt
                 cases.append(cs)
+    # stored-zeros stream: sparse containers that carry explicit entries for transitions never observed (COO / CSR / CSC
+    # with zero-valued entries, BSR whose dense blocks cover unobserved transitions).  A stored zero is a count of 0:
+    # no edge at any threshold, no weight.  Mostly the default threshold.
+    for k in range(60 if tier == "quick" else 600):
+        thr = rng.choice([1, 1, 1, 1, 0, 0, 2, 3])
+        u = rng.random()
+        if u < 0.5:
+            C = _planted(rng, rng.choice([2, 3, 4, 4, 5, 6, 7, 8]), thr)
+        elif u < 0.7:
+            C = _many(rng, rng.choice([3, 4, 5, 6, 8, 9]), thr, LAYOUTS[k % len(LAYOUTS)])
+        elif u < 0.85 and thr == 1:
+            C = _deadend(rng, decides=rng.random() < 0.5, pad=rng.choice([0, 1]))
+        else:
+            C = _random(rng, rng.choice([2, 3, 4, 5, 6]))
+        n = len(C)
+        cs = _mk(C, thr, rng.random() < 0.5, ZERO_CONTS[k % len(ZERO_CONTS)], True, fit=False)
+        divs = [d for d in range(1, n + 1) if n % d == 0]
+        blocks = [(a, b) for a in divs for b in divs if a * b > 1]
+        if k % 3 == 2 and blocks and any(any(row) for row in C):
+            cs["cont"] = "bsr_matrix"
+            cs["block"] = list(rng.choice(blocks))
+        else:
+            cs["zeros"] = _stored_zeros(rng, C, thr)
+            if not cs["zeros"]:
+                continue
+        cases.append(cs)
     # TrimMapping on its own: injective (original, mapped) pairs in arbitrary order, and the empty list
     for k in range(40 if tier == "quick" else 400):
         m = rng.randrange(0, 7) if k else 0
@@ -449,6 +528,8 @@ def generate(rng, tier):
 # ----------------------------------------------------------------------------- implementation
 _DTYPE = ["int64"]  # element type the input container is built with (narrow-dtype stream)
 _SPLIT = [False]   # build COO input with every count split into unit entries (as assigns_to_counts returns it)
+_ZEROS = [None]    # zero-count cells stored explicitly (stored-zeros stream)
+_BLOCK = [None]    # BSR block size (stored-zeros stream)
 
 
 def _split_entries(C):
@@ -480,7 +561,37 @@ def _container(name, C):
         rows, cols = _split_entries(C)
         return getattr(sp, name)((np.ones(len(rows), dtype=np.int64), (np.array(rows, dtype=int), np.array(cols, dtype=int))),
                                  shape=a.shape)
+    if _ZEROS[0] and name in ZERO_CONTS:
+        st = _stored(name, C, _ZEROS[0], None)
+        m = getattr(sp, name)((np.array([v for _, _, v in st], dtype=a.dtype),
+                               (np.array([i for i, _, _ in st], dtype=int), np.array([j for _, j, _ in st], dtype=int))),
+                              shape=a.shape)
+        assert m.nnz == len(st) and (m.toarray() == a).all(), "the container does not hold the intended stored zeros"
+        return m
+    if _BLOCK[0] and name == "bsr_matrix":
+        m = sp.bsr_matrix(a, blocksize=tuple(_BLOCK[0]))
+        assert m.nnz == len(_stored(name, C, None, _BLOCK[0])) and (m.toarray() == a).all()
+        return m
     return getattr(sp, name)(a)
+
+
+def _stored(name, C, zeros, block):
+    """the stored entries (row, col, value) of the input container, in storage order"""
+    n = len(C)
+    if block and name == "bsr_matrix":
+        return [(i, j, C[i][j]) for i, j in _block_cells(C, block)]
+    st = [(i, j, C[i][j]) for i in range(n) for j in range(len(C[i])) if C[i][j] != 0]
+    if zeros and name in ZERO_CONTS:
+        zs = [(int(i), int(j), 0) for i, j in zeros]
+        assert all(C[i][j] == 0 for i, j, _ in zs)
+        # zeros mixed into the observed entries (every other position), the remaining ones at the end
+        out = []
+        for k, e in enumerate(st):
+            out.append(e)
+            if k % 2 == 0 and zs:
+                out.append(zs.pop(0))
+        st = out + zs
+    return st
 
 
 def _canon(mapping, counts):
@@ -531,6 +642,7 @@ def run_impl(c):
     C, thr, ren, cont = c["C"], c["thr"], c["renumber"], c["cont"]
     _SPLIT[0] = bool(c.get("split"))
     _DTYPE[0] = c.get("dtype", "int64")
+    _ZEROS[0], _BLOCK[0] = c.get("zeros"), c.get("block")
     res = {"main": _trim(C, thr, ren, cont)}
     if c["extras"]:
         res["other"] = _trim(C, thr, not ren, cont)
@@ -672,6 +784,10 @@ def oracle(c, r):
             out.append(("msm-fit-notrim", "MSM(trim=False).fit reports %s" % g))
     if "dtype" in c:
         out = [(k, "%s [count matrix %s held as %s %s, threshold %d]" % (m, C, c["dtype"], cont, thr)) for k, m in out]
+    if c.get("zeros") or c.get("block"):
+        how = "with explicit zero entries at %s" % c["zeros"] if c.get("zeros") else \
+            "with block size %s (zero-count cells stored: %s)" % (c["block"], [list(z) for z in _stored_extra(c)])
+        out = [(k, "%s [count matrix %s held as %s %s, threshold %d]" % (m, C, cont, how, thr)) for k, m in out]
     return out
 
 
@@ -701,7 +817,7 @@ def _cres(r):
         clist(r["keep"], cn, "nat"), _cmat(r["counts"]), _cpairs(r["to_original"]), _cpairs(r["to_mapped"]), cont)
 
 
-def _cinp(name, C, split=False):
+def _cinp(name, C, split=False, zeros=None, block=None):
     """the input as the code receives it: NdArray cells | SparseM format rows cols stored-entries"""
     if name == "dense":
         return "(NdArray %s)" % _cmat(C)
@@ -710,6 +826,8 @@ def _cinp(name, C, split=False):
     if _is_split(name, C, split):
         rows, cols = _split_entries(C)
         st = [(i, j, 1) for i, j in zip(rows, cols)]
+    elif zeros or block:
+        st = _stored(name, C, zeros, block)
     else:
         st = [(i, j, C[i][j]) for i in range(nr) for j in range(len(C[i])) if C[i][j] != 0]
     return "(SparseM %d %d %d %s)" % (SPARSE.index(name), nr, nc,
@@ -736,7 +854,7 @@ def coq_check(c, r):
     if len(c["C"]) > COQ_CAP:
         return None        # beyond the size affordable inside Coq: judged by the exact oracle only
     C, thr, ren, cont = _cmat(c["C"]), cz(c["thr"]), c["renumber"], _ccont(c["cont"])
-    inp = _cinp(c["cont"], c["C"], c.get("split"))
+    inp = _cinp(c["cont"], c["C"], c.get("split"), c.get("zeros"), c.get("block"))
     terms = ["impl_agrees %s %s %s %s %s" % (thr, C, cb(ren), cont, _cres(r["main"])),
              "gen_impl_agrees %s %s %s %s" % (inp, thr, cb(ren), _cres(r["main"]))]
     if "other" in r:
@@ -780,6 +898,19 @@ def tags(c, r):
     t = ["renumber" if c["renumber"] else "in-place", "dense" if c["cont"] == "dense" else "sparse"]
     if c.get("split"):
         t.append("coo-split-entries")
+    if (c.get("zeros") or c.get("block")) and _wellformed(C):
+        extra = _stored_extra(c)
+        t.append("bsr-blocks" if c.get("block") else "stored-zeros")
+        if extra:
+            t.append("stored-zeros:" + c["cont"])
+            # would the answer change if a stored entry counted as an observed transition?
+            n_ = len(C)
+            C1 = [[C[i][j] if C[i][j] or (i, j) not in set(extra) else max(thr, 1) for j in range(n_)] for i in range(n_)]
+            if sorted(_sccs(C1, thr)) != sorted(_sccs(C, thr)):
+                t.append("stored-zeros-would-connect")
+                t.append("stored-zeros-would-connect:" + c["cont"])
+                if thr <= 1:
+                    t.append("stored-zeros-would-connect-default-threshold" if thr == 1 else "stored-zeros-would-connect-threshold-0")
     if c["cont"] != "dense":
         t.append("sparse:" + c["cont"])
     t.append("thr=%d" % thr)
@@ -886,7 +1017,10 @@ ESSENTIAL_TAGS = ["coo-split-entries", "renumber", "in-place", "dense", "sparse"
                   "dead-end-state", "dead-end-decides-msm-fit", "source-only-state", "heaviest-is-source-only-state"] + \
                  ["in-place-end-removed:" + k for k in SPARSE] + \
                  ["narrow-wrap-decides:" + k for k in sorted(NARROW)] + ["narrow-wrap-decides-dense"] + \
-                 ["narrow-wrap-decides:" + k for k in SPARSE] + ["narrow-row-total-exceeds-dtype"]
+                 ["narrow-wrap-decides:" + k for k in SPARSE] + ["narrow-row-total-exceeds-dtype"] + \
+                 ["stored-zeros", "bsr-blocks", "stored-zeros-would-connect", "stored-zeros-would-connect-default-threshold",
+                  "stored-zeros-would-connect-threshold-0"] + \
+                 ["stored-zeros-would-connect:" + k for k in ZERO_CONTS + ["bsr_matrix"]]
 
 
 def search(rng, tier):
@@ -912,6 +1046,20 @@ def search(rng, tier):
                 thr = rng.choice([0, 1, 1, 2])
                 C = _many(rng, rng.choice([3, 4, 5, 6, 8]), thr, LAYOUTS[(k // 3) % len(LAYOUTS)])
             c = _mk(C, thr, False, conts[k % len(conts)], True, fit=(thr == 1))
+            r = run_impl(c)
+            for key, msg in oracle(c, r):
+                found.append((key, msg, c, r))
+            if found:
+                break
+    if not found:
+        for k in range(300):
+            thr = rng.choice([1, 1, 0, 2])
+            C = _planted(rng, rng.choice([2, 3, 4, 5, 6]), thr)
+            c = _mk(C, thr, k % 2 == 0, ZERO_CONTS[k % len(ZERO_CONTS)], True, fit=False)
+            if k % 3 == 2 and len(C) % 2 == 0 and any(any(row) for row in C):
+                c["cont"], c["block"] = "bsr_matrix", [2, 2]
+            else:
+                c["zeros"] = _stored_zeros(rng, C, thr)
             r = run_impl(c)
             for key, msg in oracle(c, r):
                 found.append((key, msg, c, r))
